@@ -228,6 +228,19 @@ def gen_request(rng, v, rid, profile):
                        # is then ignored by Watcher.set_opt (as respawn and max_retry are): `options` shows it unchanged
                        "max_age": rng.choice([0, 0, 1, 2, 5, True, "1", 1.5]),
                        "singleton": rng.choice([True, False, 1, "yes"])}[k]
+        if rng.random() < profile.get("set_hooks", 0.12):
+            # a hook installed (or replaced) at run time: "dotted.name[,flag]"; by key `hooks.<name>` or through the `hooks` dict
+            hn = rng.choice(HOOK_NAMES + ["before_start", "before_spawn", "after_spawn", "bogus_hook"])
+            outs = "".join(rng.choice("ttfr") for _ in range(rng.choice([1, 1, 2, 3])))
+            val = rng.choice(["harness.simhooks.o_%s" % outs] * 6 + ["harness.simhooks.nosuch", "nosuchmodule.fn", 5, None,
+                                                                     "harness.simhooks.o_"])
+            if isinstance(val, str) and rng.random() < 0.6:
+                val += "," + rng.choice(["true", "true", "True", "1", "on", "yes", " true ", "false", "0", "no", "off", "maybe", "",
+                                         "true,x"])
+            if rng.random() < 0.5:
+                opts["hooks." + hn] = val
+            else:
+                opts["hooks"] = {hn: val} if rng.random() < 0.9 else rng.choice([{}, {hn: val, "after_stop": val}, "x"])
         if "cmd" in opts:
             n = resolve_name(v, props["name"])
             opts["cmd"] = "worker --name %s --wid $(circus.wid)" % (n or "x").replace(" ", "_")
@@ -520,6 +533,40 @@ def recipe_singleton_set(rng):
     return sc, pre
 
 
+def recipe_set_hook(rng):
+    """a hook installed, then replaced, at run time (`set <w> hooks.<name> = "dotted.name[,flag]"`), with outcomes that say no
+    or raise, with and without the ignore-failure flag — and then the operations that call it"""
+    first = {"before_spawn": {"out": ["true"], "ignore": rng.random() < 0.5}} if rng.random() < 0.4 else None
+    sc = {"arb": {"warmup_ms": 0}, "behav": [{"term": ["obey", 0], "kill_lat": 0, "spawn_ms": 1}],
+          "watchers": [_w("a", np=rng.choice([1, 2]), respawn=rng.random() < 0.8, **({"hooks": first} if first else {}))]}
+    pre = [["start"]] + [["wake"]] * 4
+    hn = rng.choice(["before_spawn", "before_spawn", "after_spawn", "before_start", "after_start", "before_signal", "after_stop"])
+
+    def val(flag):
+        outs = rng.choice(["r", "r", "rt", "f", "tr", "rrt"])
+        return "harness.simhooks.o_%s%s" % (outs, flag)
+    flags = [rng.choice([",true", ",1", ",on", ", yes "]), rng.choice(["", ",false", ",0", ""])]
+    if rng.random() < 0.3:
+        flags.reverse()
+    for i, fl in enumerate(flags):
+        key = ("hooks." + hn) if rng.random() < 0.6 else "hooks"
+        opts = {key: val(fl)} if key != "hooks" else {"hooks": {hn: val(fl)}}
+        pre += [_req("set", "h%d" % i, name="a", options=opts, waiting=True), ["wake"]]
+        trig = rng.choice(["incr", "restart", "die", "stopstart"])
+        if trig == "incr":
+            pre += [_req("incr", "i%d" % i, name="a", waiting=True), ["wake"], ["wake"]]
+        elif trig == "restart":
+            pre += [_req("restart", "r%d" % i, name="a", waiting=True)] + [["wake"]] * 4
+        elif trig == "die":
+            pre += [lambda v: (["die", v.pids.get("a", [0])[0], 256] if v.pids.get("a") else ["check"]), ["check"], ["wake"], ["wake"]]
+        else:
+            pre += [_req("stop", "s%d" % i, name="a", waiting=True), ["wake"], ["wake"], _req("start", "t%d" % i, name="a", waiting=True),
+                    ["wake"], ["wake"]]
+        if i == 0 and rng.random() < 0.5:
+            break
+    return sc, pre
+
+
 def recipe_pattern_subset(rng):
     """start / stop / restart addressed by a glob pattern that matches only some of the watchers, while a watcher
     outside the pattern has been stopped on purpose (or is running): the request must leave it alone and treat the
@@ -630,7 +677,7 @@ def recipe_options_observe(rng):
 
 
 RECIPES = {"options_observe": recipe_options_observe, "sequential_reload_death": recipe_sequential_reload_death, "stopped_worker": recipe_stopped_worker, "children_vanish": recipe_children_vanish, "pattern_subset": recipe_pattern_subset, "signal_veto": recipe_signal_veto, "singleton_set": recipe_singleton_set, "on_demand_stop": recipe_on_demand_stop, "untracked_zombies": recipe_untracked_zombies,
-           "topup_start": recipe_topup_start, "reap_veto": recipe_reap_veto}
+           "topup_start": recipe_topup_start, "reap_veto": recipe_reap_veto, "set_hook": recipe_set_hook}
 
 
 def gen_scenario(rng, nops=None, profile=None):
